@@ -34,6 +34,10 @@ func outcome(rec *h.Rec, rt *rapid.T, c interface{}, nontrivial bool, labels []s
 		// a bounded wait expired or the fixture could not be built: not a verdict
 		if os.Getenv("VERIF_DEBUG") != "" {
 			fmt.Fprintf(os.Stderr, "INCONCLUSIVE: %v\n", err)
+			if b, jerr := json.Marshal(map[string]interface{}{"property": os.Getenv("VERIF_PROP"), "test": rt.Name(), "case": c, "message": err.Error()}); jerr == nil {
+				os.MkdirAll("/tmp/verif-inconclusive", 0755)
+				os.WriteFile(fmt.Sprintf("/tmp/verif-inconclusive/%s-%d.json", os.Getenv("VERIF_PROP"), len(b)), b, 0644)
+			}
 		}
 		rec.Case(c, false, append(labels, "inconclusive")...)
 		rec.Inconclusive()
